@@ -465,7 +465,28 @@ func injectPyPIScenario(t *rapid.T, u *Universe) {
 		v.Reqs = append(v.Reqs, UReq{Name: target, Req: spec, Type: typ})
 	}
 	hi := func(p *UPkg) *UVer { return &p.Versions[len(p.Versions)-1] }
-	switch rapid.IntRange(0, 3).Draw(t, "scenariokind") {
+	switch rapid.IntRange(0, 4).Draw(t, "scenariokind") {
+	case 4: // a downgrade that leaves a stale parent in front of a two-cycle
+		if len(P.Versions) >= 2 {
+			for i := range root.Versions {
+				set(&root.Versions[i], P.Name, "", "")
+				set(&root.Versions[i], R.Name, "", "")
+			}
+			// versions are listed in no particular order: constrain by exclusion
+			for i := range P.Versions {
+				set(&P.Versions[i], Z.Name, "", "")
+			}
+			for i := range R.Versions {
+				set(&R.Versions[i], P.Name, "!="+P.Versions[0].Version, "")
+				set(&R.Versions[i], Z.Name, "", "")
+			}
+			for i := range Z.Versions {
+				set(&Z.Versions[i], Q.Name, "", "")
+			}
+			for i := range Q.Versions {
+				set(&Q.Versions[i], Z.Name, "", "")
+			}
+		}
 	case 3: // a cycle back to the root package, one requirement naming a prerelease
 		for i := range root.Versions {
 			set(&root.Versions[i], P.Name, "", "")
